@@ -10,6 +10,8 @@ pub mod types;
 pub use types::*;
 
 mod client;
+#[cfg(gamedig_verif)]
+pub use client::verif_unit;
 
 #[cfg_attr(feature = "serde", derive(Serialize, Deserialize))]
 #[derive(Debug, Clone, PartialEq, Eq)]
